@@ -23,6 +23,20 @@ CHECKS = {
    note=("Open known findings: pqnr raises 'L-BFGS first iterate is bad' on dense data with an all-zero slice (pinned upstream "
          "as known to fail) and with stoptol = 0 at a stationary row.  The mass discipline inside a run is checked on the "
          "specification only.  Trusted base: numpy log-likelihood oracle in harness/c11.py, TLC.")),
+ "C13": dict(engine="GcpSolve+Sampler", design="3/C13",
+   text=("GcpSolve.tla: epoch loop of the stochastic GCP solvers (fixed function sample, update steps, failed-epoch detection, "
+         "rollback to the best model, termination on failures / tolerance / epoch limit) and the life cycle of one optimizer "
+         "object over several solves; TLC checks best = min(trace), trace length, limits and reusability for all estimate "
+         "orders over a small domain, and rejects the sanity mutant in which object state survives the start of a solve.  "
+         "Sampler.tla: what a valid (subscripts, values, weights) sample is; TLC enumerates every zero pattern of small tensors "
+         "x kinds x request counts (0 .. beyond the supply) and checks the contract is satisfiable.  Real runs are recorded "
+         "hook-free (wrapped loss handle, wrapped sampler) as start / grad / epoch / return events with estimates abstracted "
+         "to ranks and validated by TLC: histories of 2-3 solves on one SGD / Adam / Adagrad object vs fresh objects, "
+         "L-BFGS-B observation contract (objective truthful and not worse, bounds, callback slot restored, reusable)."),
+   technique="TLA+ state-machine specs GcpSolve / Sampler; TLC model checking incl. a sanity mutant; TLC-enumerated sampling requests; TLC trace validation of recorded solver histories",
+   note=("Estimates are abstracted to ranks (the solver's own comparisons kept exact; the recomputed estimate of the returned "
+         "model identified with the smallest estimate within 1e-9 relative).  Semi-stratified 'zero' draws are unconfirmed by "
+         "definition.  Trusted base: recording wrappers and numpy re-evaluation in harness/c13.py, loss handles (C12), TLC.")),
  "C14": dict(engine="Nvecs", design="3/C14",
    text=("Nvecs.tla (extending the exact class of Hosvd.tla): for tensors with diagonal integer Gram matrices rotated in "
          "mode n by a rational orthogonal matrix (identity, signed permutation, 3-4-5 rotation), the r leading mode-n "
